@@ -255,6 +255,196 @@ func genStopCase(r *rng.R, spec string, idx int) crashCase {
 	return crashCase{spec: spec, model: fmt.Sprintf("%s-%s:%04x", mode, cpuModel, at), code: p}
 }
 
+// ---------------------------------------------------------------------------------------
+// Judged stops, second family: where a run must NOT halt.  Property C11 says a run that stops halts AT A BRK or
+// returns an error.  The programs below contain instructions that a "helpful" implementation might treat as the end of
+// the program although they are not a BRK; the specification's own run either never reaches a BRK (an endless loop:
+// the machine must run until the harness's bus watchdog ends the run with an error, result kind `watchdog`) or reaches
+// it only later, somewhere else:
+//   0  JMP abs whose target is its own address (the classic "done" idiom), first thing in the program or after a prefix
+//   1  JMP over unimplemented opcodes to a later BRK
+//   2  a taken conditional branch / BRA to itself
+//   3  RTS executed with SP = $FF / $FE / $00 / $01 / anything: the stack pointer wraps inside page one, the return
+//      address comes from $0100/$0101 ($01FF/$0100, ...), execution continues there
+//   4  RTS as the very first instruction, nothing planted: the return address is whatever $0100/$0101 hold
+//   5  PLA / PLP / PLX / PLY with SP = $FF (reads $0100), the program goes on afterwards
+//   6  a balanced JSR/RTS pair followed by an RTS at SP = $FF
+//   7  loops that are not a JMP to itself: JMP (ind) through a pointer to itself, two JMPs to each other, a JMP to
+//      itself that is reached by a jump
+// Every case ends in one of: BRK, [V] BRK, an unimplemented opcode, or an endless loop.
+
+type wdMem struct {
+	memory.Memory
+	left int
+}
+
+const wdMessage = "bus watchdog expired"
+
+func (w *wdMem) tick() {
+	w.left--
+	if w.left < 0 {
+		panic(wdMessage)
+	}
+}
+
+func (w *wdMem) Load(address uint16) uint8 {
+	w.tick()
+	return w.Memory.Load(address)
+}
+
+func (w *wdMem) Store(address uint16, b uint8) {
+	w.tick()
+	w.Memory.Store(address, b)
+}
+
+const wdBudget = 60000
+
+func genFlowCase(r *rng.R, spec string, idx int) crashCase {
+	cpuModel := []string{"6502", "65C02"}[r.Intn(2)]
+	mode := []string{"spec", "lar"}[(idx/8)%2]
+	limit := machLimit(spec)
+	at := []uint16{0x0400, 0x0800, 0x2000, 0x3E00, uint16(limit - 0x80)}[r.Intn(5)]
+	ill := stopIllegal(r, cpuModel)
+	one := []uint8{0xEA, 0xC8, 0x18, 0x38, 0xB8, 0x88, 0x98, 0xA8}[r.Intn(8)] // NOP INY CLC SEC CLV DEY TYA TAY
+	kind := idx % 8
+	first := idx < 8 // the first round: the barest form of each kind
+	p := []uint8{}
+	here := func() uint16 { return at + uint16(len(p)) }
+	pre := func() {
+		if first {
+			return
+		}
+		for i := r.Intn(3); i > 0; i-- {
+			switch r.Intn(3) {
+			case 0:
+				p = append(p, 0xA9, 1+uint8(r.Intn(255))) // LDA #
+			case 1:
+				p = append(p, one)
+			case 2:
+				p = append(p, 0xA0, r.BByte()) // LDY #
+			}
+		}
+	}
+	// the way the program ends once it has come through
+	end := func() {
+		switch r.Intn(5) {
+		case 0, 1:
+			p = append(p, 0x00)
+		case 2:
+			p = append(p, one, 0x00)
+		case 3:
+			p = append(p, ill, 0x00)
+		case 4:
+			h := here()
+			p = append(p, 0x4C, lo(h), hi(h), 0x00)
+		}
+	}
+	sta := func(v uint8, a uint16) { p = append(p, 0xA9, v, 0x8D, lo(a), hi(a)) }
+	// plant the return address target-1 where an RTS executed with stack pointer sp finds it; returns the two
+	// positions in p to be patched once the target is known
+	plant := func(sp uint8) (int, int) {
+		i := len(p)
+		sta(0, 0x0100+uint16(sp+1))
+		sta(0, 0x0100+uint16(sp+2))
+		return i + 1, i + 6
+	}
+	patch := func(iLo, iHi int, target uint16) {
+		p[iLo], p[iHi] = lo(target-1), hi(target-1)
+	}
+	switch kind {
+	case 0:
+		pre()
+		h := here()
+		p = append(p, 0x4C, lo(h), hi(h), 0x00)
+	case 1:
+		pre()
+		gap := 1 + r.Intn(3)
+		t := here() + 3 + uint16(gap)
+		p = append(p, 0x4C, lo(t), hi(t))
+		for i := 0; i < gap; i++ {
+			p = append(p, ill)
+		}
+		if r.Bool() {
+			p = append(p, one)
+		}
+		p = append(p, 0x00)
+	case 2:
+		pre()
+		type br struct {
+			op  uint8
+			set []uint8
+		}
+		brs := []br{{0xD0, []uint8{0xA9, 0x01}}, {0xF0, []uint8{0xA9, 0x00}}, {0x90, []uint8{0x18}}, {0xB0, []uint8{0x38}},
+			{0x10, []uint8{0xA9, 0x01}}, {0x30, []uint8{0xA9, 0x80}}, {0x50, []uint8{0xB8}},
+			{0x70, []uint8{0x18, 0xA9, 0x7F, 0x69, 0x01}}, {0x80, nil}}
+		b := brs[r.Intn(len(brs))]
+		if first {
+			b = brs[0]
+		}
+		p = append(p, b.set...)
+		p = append(p, b.op, 0xFE, 0x00)
+	case 3, 6:
+		sp := []uint8{0xFF, 0xFF, 0xFE, 0x00, 0x01, 0xFD, r.Byte()}[r.Intn(7)]
+		if first || kind == 6 {
+			sp = 0xFF
+		}
+		iLo, iHi := plant(sp)
+		if kind == 6 {
+			// JSR sub ; RTS ; <unimplemented> ; sub: V ; RTS
+			sub := here() + 5
+			p = append(p, 0x20, lo(sub), hi(sub), 0x60, ill, one, 0x60)
+		} else {
+			if sp != 0xFF || (!first && r.Bool()) {
+				p = append(p, 0xA2, sp, 0x9A) // LDX #sp ; TXS
+			}
+			pre()
+			p = append(p, 0x60, ill)
+		}
+		patch(iLo, iHi, here())
+		end()
+	case 4:
+		// nothing planted: on a fresh machine $0100/$0101 hold what the machine starts with
+		if !first && r.Bool() {
+			p = append(p, one)
+		}
+		if !first && r.Chance(30) {
+			p = append(p, 0x48, 0x68) // PHA PLA: the stack has been used, the stack pointer is $FF again
+		}
+		p = append(p, 0x60, ill, 0x00)
+	case 5:
+		pull := []uint8{0x68, 0x28, 0xFA, 0x7A}[r.Intn(4)]
+		if first {
+			pull = 0x68
+		}
+		if !first && r.Bool() {
+			sta(r.BByte()&^0x08, 0x0100) // (decimal mode stays off)
+		}
+		pre()
+		p = append(p, pull)
+		end()
+	case 7:
+		switch r.Intn(3) {
+		case 0:
+			// pointer at $40/$41 to the JMP (ind) itself
+			j := here() + 8
+			p = append(p, 0xA9, lo(j), 0x85, 0x40, 0xA9, hi(j), 0x85, 0x41, 0x6C, 0x40, 0x00, 0x00)
+		case 1:
+			a := here()
+			b := a + 3 + uint16(r.Intn(2))
+			p = append(p, 0x4C, lo(b), hi(b))
+			for here() < b {
+				p = append(p, ill)
+			}
+			p = append(p, 0x4C, lo(a), hi(a), 0x00)
+		case 2:
+			pre()
+			t := here() + 4
+			p = append(p, 0x4C, lo(t), hi(t), ill, 0x4C, lo(t), hi(t), 0x00)
+		}
+	}
+	return crashCase{spec: spec, model: fmt.Sprintf("%s-%s:%04x", mode, cpuModel, at), code: p}
+}
+
 // runStopCase executes a judged case in THIS process and returns `kind@final state`
 func runStopCase(c crashCase) string {
 	cfg := emuconfig.DefaultConfig()
@@ -267,9 +457,14 @@ func runStopCase(c crashCase) string {
 	if err != nil {
 		return "builderr"
 	}
+	// every bus access of the run goes through a watchdog: an endless loop of the simulated program ends with the
+	// watchdog's panic, which RunExt reports as an error (result kind `watchdog`)
+	wd := &wdMem{Memory: p.Mem, left: 1 << 30}
+	p.Mem = wd
 	res := "halt"
 	state := ""
 	if protect(func() {
+		wd.left = wdBudget
 		done := make(chan error, 1)
 		go func() {
 			defer func() {
@@ -302,11 +497,15 @@ func runStopCase(c crashCase) string {
 					res = "hostcrash"
 					return
 				}
+				if strings.Contains(e.Error(), wdMessage) {
+					res = "watchdog"
+				}
 			}
 		case <-time.After(2 * time.Second):
 			res = "running"
 			return
 		}
+		wd.left = 1 << 30
 		peek := func(a uint16) string {
 			v := "!!"
 			protect(func() { v = fmt.Sprintf("%02x", p.Mem.Load(a)) })
@@ -523,6 +722,7 @@ func runChild(dir string, cases []crashCase) ([]string, bool) {
 func hostCrashStream(seed uint64, n int) {
 	r := rng.New(seed + 1111)
 	rs := rng.New(seed + 111111) // the judged stops draw from their own generator: the cases above stay what they were
+	rf := rng.New(seed + 11111111) // and so does their second family
 	dir := tmpDir()
 	defer os.RemoveAll(dir)
 	for _, spec := range memSpecs {
@@ -532,6 +732,9 @@ func hostCrashStream(seed uint64, n int) {
 		}
 		for i := 0; i < 8+n/10; i++ {
 			cases = append(cases, genStopCase(rs, spec, i))
+		}
+		for i := 0; i < 16+n/15; i++ {
+			cases = append(cases, genFlowCase(rf, spec, i))
 		}
 		res, ok := runChild(dir, cases)
 		if !ok {
